@@ -807,7 +807,10 @@ class TDS(BaseRoutine):
 
         # if a `custom_event` flag is set (without a specific callback)
         if self.custom_event is True:
-            system.switch_action(system.exist.pflow_tds)
+            # skip if scheduled events at this time have just been dispatched above;
+            # calling them again would apply the same event twice
+            if ret is False:
+                system.switch_action(system.exist.pflow_tds)
             self._last_switch_t = system.dae.t.tolist()
             system.vars_to_models()
             self.custom_event = False
